@@ -143,6 +143,16 @@ def check(prog, run):
         run.report(r, "%s:Executor.execute_fields_serially:multiple-starts" % EXE, f.where(), "resolve_field is called at %d sites" % len(rcalls))
         return _s3(prog, run)
     g, call = rcalls[0]
+    # a local trampoline (`def _resolve_entry(k, f, n): return self.resolve_field(..)`) stands for the call it makes: the step is
+    # the function that calls the trampoline
+    for _hop in range(2):
+        body_ = [st for st in g.node.body if not (isinstance(st, ast.Expr) and isinstance(st.value, ast.Constant))]
+        if g is not f and len(body_) == 1 and isinstance(body_[0], ast.Return) and body_[0].value is call:
+            sites = [(h, n) for h in all_fns for n in own_nodes(h.node) if isinstance(n, ast.Call) and isinstance(n.func, ast.Name) and n.func.id == g.name]
+            if len(sites) == 1:
+                g, call = sites[0]
+                continue
+        break
     if g is f:
         # iterative form: must not be a loop that starts the next field without waiting
         in_loop = _inside_loop(call)
@@ -165,8 +175,15 @@ def check(prog, run):
             first = scn.expr(cand.args[0])
             if isinstance(first, ast.Call) and (getattr(first, "lineno", None), getattr(first, "col_offset", None)) == (call.lineno, call.col_offset):
                 mv = cand
-                if isinstance(cand.args[1], ast.Name) and cand.args[1].id in step.nested:
-                    conts.append(step.nested[cand.args[1].id])
+                cname = cand.args[1].id if isinstance(cand.args[1], ast.Name) else None
+                if cname is not None and cname not in step.nested:
+                    # `cb = <nested function>`: the continuation named through a local (a closure factory is analysed inlined)
+                    al = [x.value.id for x in own_nodes(step.node) if isinstance(x, ast.Assign) and len(x.targets) == 1 and isinstance(x.targets[0], ast.Name)
+                          and x.targets[0].id == cname and isinstance(x.value, ast.Name)]
+                    if len(al) == 1:
+                        cname = al[0]
+                if cname is not None and cname in step.nested:
+                    conts.append(step.nested[cname])
     r.instance("continuation attached through map_value: %s" % [c.name for c in conts])
     if not conts:
         run.report(r, "%s:Executor.execute_fields_serially:no-continuation" % EXE, step.where(call),
